@@ -11,11 +11,9 @@ from vh import gen as G
 
 
 def units(tier):
-    us = PG.program_units(tier, "rt_prog", ics=(True,))
-    # comments retained: every program once more with comment lines, fewer symbolic holes
-    us += PG.program_units(tier, "rt_prog", stds=("f2008",), ics=(False,), k=2,
-                           filt=(lambda p: True) if tier != "quick" else (lambda p: len(p["exec"]) and not isinstance(p["exec"][0], str) or len(p["spec"]) > 0))
-    return us
+    if tier == "quick":
+        return PG.program_units(tier, "rt_prog", ics=(True, False), rotate=True)
+    return PG.program_units(tier, "rt_prog", ics=(True, False))
 
 
 def meta(tier):
@@ -33,11 +31,20 @@ def meta(tier):
 
 def with_comments(src):
     lines = src.split("\n")
-    out = [lines[0], "! first comment"]
-    for l in lines[1:-2]:
+    out = []
+    k = 0
+    for l in lines:
+        if len(l) == 0:
+            continue
+        if k % 3 == 0:
+            out.append("! comment %d" % k)
+        elif k % 3 == 1:
+            out.append("  ! it's 'comment' & \"x")
+        else:
+            out.append("")
         out.append(l)
-    out.append("  ! last 'comment' & \"x")
-    out.append(lines[-2])
+        k += 1
+    out.append("! trailing")
     return "\n".join(out) + "\n"
 
 
